@@ -1520,7 +1520,7 @@ SUBCHECKS = [
     SubCheck("human_readable", check_human_readable, strategy=hr_cases(), quick=300, thorough=20000,
              rule="registries over units registered in `quantities` under their own symbol (m cm mm nm km, kg g mg, "
                   "s ms min h, A mA, K mK, mol mmol) with optional scale: to -> from -> to", tolerances={"rel": TOL}),
-    SubCheck("backend", check_backend, strategy=backend_cases(), quick=900, thorough=60000,
+    SubCheck("backend", check_backend, strategy=backend_cases(), quick=1300, thorough=80000,
              rule="Backend('math'|'numpy').f and patched_numpy.f on q/t with dim(q)=dim(t) (scalar, list, array) = f of "
                   "the exact ratio; an argument with a left-over dimension must raise.  40 % of the Backend cases: "
                   "functions of 2-3 positional arguments (pow/power, atan2/arctan2, hypot, fmod, copysign, log(x, base), "
